@@ -326,6 +326,19 @@ class FixedList(Ty):
         return tuple(vals) if self.as_tuple else vals
 
 
+class FixedDict(Ty):
+    """A concrete dict with exactly the given (concrete) keys; the values have the given shapes."""
+
+    def __init__(self, **fields):
+        self.fields = fields
+
+    def make(self, interp, name):
+        return {k: t.make(interp, '%s[%s]' % (name, k)) for k, t in self.fields.items()}
+
+    def concrete(self, cx, name):
+        return {k: t.concrete(cx, '%s[%s]' % (name, k)) for k, t in self.fields.items()}
+
+
 class Opaq(Ty):
     """A value about which nothing is known and on which nothing is done (passed through)."""
 
@@ -355,9 +368,9 @@ def make_indexed(interp, ty, base, idx):
     if isinstance(ty, _Int):
         t = z3.Function(base, *(sorts + [z3.IntSort()]))(*idx)
         if ty.lo is not None:
-            st.assume(t >= ty.lo)
+            st.assume_unscoped(t >= ty.lo)
         if ty.hi is not None:
-            st.assume(t <= ty.hi)
+            st.assume_unscoped(t <= ty.hi)
         return SInt(t)
     if isinstance(ty, _Bool):
         return SBool(z3.Function(base, *(sorts + [z3.BoolSort()]))(*idx))
@@ -372,7 +385,7 @@ def make_indexed(interp, ty, base, idx):
         if len(ty.values) == 1:
             return ty.values[0]
         t = z3.Function(base + '.idx', *(sorts + [z3.IntSort()]))(*idx)
-        st.assume(z3.And(t >= 0, t < len(ty.values)))
+        st.assume_unscoped(z3.And(t >= 0, t < len(ty.values)))
         return SChoice(t, ty.values)
     if isinstance(ty, Involution):
         raise Unsupported('indexed element of type Involution (use it as an attribute)')
@@ -394,14 +407,16 @@ def make_indexed(interp, ty, base, idx):
             v = make_indexed(interp, t, '%s.%s' % (base, k), idx) if isinstance(t, Ty) else t
             object.__setattr__(obj, k, v)
         if ty.invariant is not None:
-            st.assume(interp.truth(interp.call(ty.invariant, [obj], {})))
+            st.assume_unscoped(interp.truth(interp.call(ty.invariant, [obj], {})))
         return obj
     if isinstance(ty, FixedList):
         vals = [make_indexed(interp, t, '%s[%d]' % (base, i), idx) for i, t in enumerate(ty.elems)]
         return tuple(vals) if ty.as_tuple else vals
+    if isinstance(ty, FixedDict):
+        return {k: make_indexed(interp, t, '%s[%s]' % (base, k), idx) for k, t in ty.fields.items()}
     if isinstance(ty, ListOf):
         n = z3.Function(base + '.len', *(sorts + [z3.IntSort()]))(*idx)
-        st.assume(n >= ty.min_len)
+        st.assume_unscoped(n >= ty.min_len)
         elem_ty = ty.elem
 
         def elem(interp2, idx_term, base=base, idx=idx):
@@ -470,11 +485,11 @@ def new_opaque(interp, iface, name, index=(), preset=None):
                 break
     if inv is not None:
         f = inv.__func__ if isinstance(inv, staticmethod) else inv
-        assume_pred(interp, f, o)
+        assume_pred(interp, f, o, unscoped=True)
     return o
 
 
-def assume_pred(interp, pred, *args):
+def assume_pred(interp, pred, *args, unscoped=False):
     """Assume a sidecar predicate; parameters beyond the given arguments are ghosts, by name."""
     from .loops import _param_names
     names = _param_names(pred)
@@ -483,7 +498,11 @@ def assume_pred(interp, pred, *args):
         if n not in interp.reg.ghost_env:
             raise Unsupported('predicate %s needs ghost %r which is not in scope' % (getattr(pred, '__name__', pred), n))
         extra.append(interp.reg.ghost_env[n])
-    interp.st.assume(interp.truth(interp.call(pred, list(args) + extra, {})))
+    v = interp.truth(interp.call(pred, list(args) + extra, {}))
+    if unscoped:
+        interp.st.assume_unscoped(v)
+    else:
+        interp.st.assume(v)
 
 
 def _iface_lookup(iface, table, name):
